@@ -6,15 +6,17 @@
 (* The harness runs the real, unmodified generic code with a tracking      *)
 (* scalar and writes one ndjson event per observable step, in execution    *)
 (* order (IOEnv.TRACE names the file):                                     *)
-(*   Reset  g, stab, debug, meta     a new call on graph g starts          *)
-(*   Read   coord, how, ncmp, unum, uden                                   *)
-(*          first use of x-space coordinate `coord`:                       *)
-(*          how = "ctl"  it was compared (edge choice); edge = the edge    *)
-(*                       removed at this step, ncmp = comparisons made,    *)
-(*                       unum/uden: the value of the coordinate when it    *)
-(*                       lies on the dyadic lattice (uden = 0: not given)  *)
-(*          how = "data" it entered arithmetic (xi, Box-Muller a / b)      *)
-(*          how = "narrow" converted to f64        (Gamma draw)            *)
+(*   Reset  g, stab, debug, meta, order   a new call on graph g starts;    *)
+(*          order = the removal order the repository's own debug log shows *)
+(*          for the same point (<<>> when it could not be observed)        *)
+(*   Read   coord, narrow, unum, uden                                      *)
+(*          x-space coordinate `coord` acquired a use (one event per       *)
+(*          coordinate, sorted by index: the order in which the code       *)
+(*          happens to touch coordinates is not part of any property);     *)
+(*          narrow: it was converted to f64 as a bare coordinate;          *)
+(*          unum/uden: its value when it lies on the dyadic lattice        *)
+(*          (uden = 0: not given).  The ROLE of the coordinate is decided  *)
+(*          by the state of the machine, not by the recorder.              *)
 (*   Narrow coord, nleaves   any other to_f64 (coord = -1: not a bare      *)
 (*          coordinate; nleaves = number of coordinates it depends on)     *)
 (*   Widen  value            an f64 constant that flows into a returned     *)
@@ -35,8 +37,9 @@ EXTENDS Sample, Json, IOUtils, SequencesExt
 
 Rec == ndJsonDeserialize(IOEnv.TRACE)
 
-VARIABLE l          \* next line of the trace to be matched
-tvars == <<vars, l>>
+VARIABLES l,        \* next line of the trace to be matched
+          rl        \* line of the Reset event of the call in progress
+tvars == <<vars, l, rl>>
 
 NoGraph == [edges |-> <<>>, mass |-> <<>>, w |-> <<>>, wd |-> 2, ext |-> {}, D |-> 0]
 NoTab   == [l |-> <<0>>, s |-> <<FALSE>>, w |-> <<2>>, j |-> <<One>>]
@@ -46,19 +49,16 @@ GraphOf(r) == [edges |-> r.edges, mass |-> r.mass, w |-> r.w, wd |-> r.wd,
 SetOfSeq(s) == {s[i] : i \in 1..Len(s)}
 
 TInit == /\ InitCall(NoGraph, NoTab, [stab |-> FALSE, debug |-> FALSE, meta |-> FALSE])
-         /\ l = 1
+         /\ l = 1 /\ rl = 0
 
 IsEvent(e) == l <= Len(Rec) /\ Rec[l].ev = e /\ l' = l + 1
+Same == rl' = rl
 Idle == pc = "done" \/ NE(g) = 0       \* no call in progress
 
 TReset ==
-   /\ IsEvent("Reset") /\ Idle
+   /\ IsEvent("Reset") /\ Idle /\ rl' = l
    /\ LET gr == GraphOf(Rec[l].g)
       IN StartCall(gr, IF gr = g THEN tab ELSE FullTable(gr), [stab |-> Rec[l].stab, debug |-> Rec[l].debug, meta |-> Rec[l].meta])
-
-\* the k-th edge of a set in index order
-RECURSIVE KthMin(_, _)
-KthMin(S, k) == IF k = 1 THEN Min(S) ELSE KthMin(S \ {Min(S)}, k - 1)
 
 \* inverse-CDF rule on exact rationals: with cumulative sums c_1 < ... < c_n = 1 and u on a lattice,
 \* taking edge k is legal iff  c_(k-1) <= u <= c_k   (equality = exact tie: the rounded sum may fall
@@ -71,34 +71,34 @@ LatticeOK(k) ==
            ELSE /\ RLe(u, c[k])
                 /\ (IF k = 1 THEN TRUE ELSE RLe(c[k - 1], u))   \* (IF, not \/: TLC evaluates both disjuncts of an action)
 
-\* An edge-choice read: the coordinate took part in a comparison before any other use.  `edge` is the edge
-\* the call went on to remove at this step (observed from the removal order of the same point; 0 = not
-\* observed, then the number of comparisons made stands in for it, as in the code's linear scan).
-ChosenEdge == IF Rec[l].edge # 0 THEN Rec[l].edge
-              ELSE IF Rec[l].ncmp >= 1 /\ Rec[l].ncmp <= Cardinality(CurSet) THEN KthMin(CurSet, Rec[l].ncmp) ELSE 0
+\* An edge-choice read.  The edge removed at this step is the one the observed removal order names; when the
+\* order was not observed, any edge of the current subgraph may have been taken.
+Observed == IF rl = 0 THEN <<>> ELSE Rec[rl].order
 PosOf(e) == Cardinality({f \in CurSet : f <= e})
 TReadCtl ==
-   /\ IsEvent("Read") /\ Rec[l].how = "ctl" /\ Rec[l].coord = ctr
-   /\ pc = "sector" /\ ChosenEdge \in CurSet
-   /\ LatticeOK(PosOf(ChosenEdge))
-   /\ PickEdge(ChosenEdge)
-\* a data read: the coordinate enters arithmetic; which role it plays is fixed by where the call is
-TReadXi     == IsEvent("Read") /\ Rec[l].how = "data"   /\ Rec[l].coord = ctr /\ DrawXi
-TReadLambda == IsEvent("Read") /\ Rec[l].how = "narrow" /\ Rec[l].coord = ctr
+   /\ IsEvent("Read") /\ ~Rec[l].narrow /\ Rec[l].coord = ctr /\ Same
+   /\ pc = "sector"
+   /\ \E e \in CurSet :
+        /\ (IF Len(Observed) > Len(order) THEN e = Observed[Len(order) + 1] ELSE TRUE)
+        /\ LatticeOK(PosOf(e))
+        /\ PickEdge(e)
+\* a data read: which role the coordinate plays is fixed by where the call is
+TReadXi     == IsEvent("Read") /\ ~Rec[l].narrow /\ Rec[l].coord = ctr /\ Same /\ DrawXi
+TReadLambda == IsEvent("Read") /\ Rec[l].narrow /\ Rec[l].coord = ctr /\ Same
                /\ \E r \in {"Ok", "ErrGamma"} : DrawLambda(r)
-TReadBmA    == IsEvent("Read") /\ Rec[l].how = "data"   /\ Rec[l].coord = ctr /\ BoxMullerA
-TReadBmB    == IsEvent("Read") /\ Rec[l].how = "data"   /\ Rec[l].coord = ctr /\ BoxMullerB
+TReadBmA    == IsEvent("Read") /\ ~Rec[l].narrow /\ Rec[l].coord = ctr /\ Same /\ BoxMullerA
+TReadBmB    == IsEvent("Read") /\ ~Rec[l].narrow /\ Rec[l].coord = ctr /\ Same /\ BoxMullerB
 
 \* further narrowings: a coordinate already narrowed may be narrowed again; with print_debug_info the
 \* logger receives f64 copies of intermediate values (the property exempts debug output)
 TNarrow ==
-   /\ IsEvent("Narrow")
+   /\ IsEvent("Narrow") /\ Same
    /\ \/ Rec[l].coord \in narrowed
       \/ cfg.debug
    /\ UNCHANGED vars
 
 TRet ==
-   /\ IsEvent("Ret") /\ pc = "done" /\ NE(g) > 0
+   /\ IsEvent("Ret") /\ Same /\ pc = "done" /\ NE(g) > 0
    /\ out = Rec[l].out
    /\ SetOfSeq(Rec[l].used) = 0..(ctr - 1)            \* exactly the coordinates read acquired a use
    /\ (~cfg.debug => Rec[l].logs = <<>>)   \* nothing is logged when print_debug_info is off; with it on, the key names are
@@ -106,7 +106,7 @@ TRet ==
    /\ UNCHANGED vars
 
 TQ ==
-   /\ IsEvent("Q") /\ pc = "done" /\ out = "Ok"
+   /\ IsEvent("Q") /\ Same /\ pc = "done" /\ out = "Ok"
    /\ Rec[l].n + 1 <= Len(qsrc)
    /\ qsrc[Rec[l].n + 1] = <<Rec[l].trig, Rec[l].a, Rec[l].b>>
    /\ UNCHANGED vars
@@ -124,12 +124,12 @@ Allowed(name, i) ==
      [] name = "shift"  -> XAll
      [] OTHER           -> {}
 TOut ==
-   /\ IsEvent("Out") /\ pc = "done" /\ out = "Ok"
+   /\ IsEvent("Out") /\ Same /\ pc = "done" /\ out = "Ok"
    /\ SetOfSeq(Rec[l].leaves) \subseteq Allowed(Rec[l].name, Rec[l].i)
    /\ (Rec[l].name \in {"u", "v", "jac"} /\ E >= 2) => SetOfSeq(Rec[l].leaves) # {}
    /\ UNCHANGED vars
 
-Silent == /\ l' = l
+Silent == /\ l' = l /\ Same
           /\ \/ LastEdge \/ Assign \/ Rescale \/ Finish
              \/ \E r \in {"Ok", "ErrZeroDet", "ErrUnstable"} : Decompose(r)
 
